@@ -131,9 +131,9 @@ OBLIGATIONS += [
       "DER validity is an uninterpreted predicate (k256's DER parser is not executed)", cost=1,
       stubs=("E2: ecdsa::Signature::from_der is an opaque parser: Ok(sig(bytes)) iff DER_VALID(bytes) (uninterpreted)",)),
     K("C06", "c06_compact_parse_any", "c06", ["Signature::from_compact_bytes", "Signature::to_compact_bytes", "Signature::r", "Signature::s", "k256 Signature::from_scalars (real code)"],
-      "all 65-byte strings; unwind 67", cost=30, tiers=("thorough",), timeout=3000, full_domain=True),
+      "all 65-byte strings; unwind 67", cost=30, tiers=("thorough",), timeout=5400, full_domain=True, mem_gb=40),
     K("C06", "c06_compact_recovery_matrix", "c06", ["Signature::from_compact_bytes", "Signature::to_compact_bytes(Some(RecoveryInfo))", "RecoveryInfo::new/from_byte"],
-      "all 65-byte strings with header 27..=34 x all 8 RecoveryInfo values; unwind 67", cost=40, tiers=("thorough",), timeout=3600, full_domain=True),
+      "all 65-byte strings with header 27..=34 x all 8 RecoveryInfo values; unwind 67", cost=40, tiers=("thorough",), timeout=5400, full_domain=True, mem_gb=40),
 ]
 
 # ---------------------------------------------------------------- C07
@@ -301,6 +301,12 @@ OBLIGATIONS.append(M("C05", "c05_signing_glue", {"q": "ecdsa_glue"}, ["ECDSA::{s
                      stubs=("E2 signing models: Scalar::from_{be,le}_bytes_reduced / from_uint_reduced(U256::from_{le,be}_slice) -> REDUCE_MOD_N of the big-endian value; rfc6979_generate_k::<_, D> -> RFC6979_K_<D>(x, h, entropy); OsRng::fill_bytes -> fresh bytes; "
                             "SignPrimitive::try_sign_prehashed -> (signature, recovery id) as functions of (d, k, z) or an error; recoverable::Signature::new / recovery_id / From, RecoveryId::{is_y_odd,is_x_reduced} -> functions of that signature; "
                             "EncodedPoint::from_bytes, VerifyingKey::from_encoded_point, AffinePoint::from_encoded_point -> validity predicates; DigestVerifier::verify_digest / VerifyPrimitive::verify_prehashed -> ECDSA_VERIFY(key bytes, z, signature); diffie_hellman -> ECDH_SHARED_X; hash engines as in C13",)))
+
+OBLIGATIONS.append(M("C09", "c09_pubkey_use_total", {"q": "pubkey_use"}, ["PublicKey::from_bytes_impl", "PublicKey::{to_decompressed_impl,to_compressed_impl}", "ECDSA::{verify_hashbuf_impl,verify_digest_impl}", "ECDH::derive_shared_key_impl", "P2PKHAddress::from_pubkey_impl"],
+                     "PublicKey::from_bytes_impl on every byte string of symbolic length <= 65, followed by each listed operation on the accepted key: no panic path (the anchor 'unwrap on decompression of unvalidated points')", cost=1,
+                     stubs=("E2 point models: SEC1 format validity, curve membership and encoding kind (identity/compact/compressed/uncompressed) are uninterpreted predicates of the key bytes; EncodedPoint::from_bytes accepts iff the format is valid, "
+                            "k256 PublicKey::from_sec1_bytes / VerifyingKey::from_encoded_point iff additionally on the curve, AffinePoint::decompress / from_encoded_point return a CtOption that is present iff on the curve (or the identity); CtOption::unwrap / Option::unwrap panic when absent",
+                            "stated fact: an encoding of a non-identity curve point is of the compressed or uncompressed kind")))
 
 
 def for_property(pid):
